@@ -51,6 +51,10 @@ CLAIMED = {
           "Shapes: `^`, mutual recursion through function parameters (`^other`) and through record fields (`^m.go`), closures chained by `^~`, entry by `^f`; 0-3 state binaries rebuilt every iteration; the tail call under 0-4 generated wrappers (nested/redundant blocks, bindings, consequence, branch after a failed binding pattern), two wrapper stacks by parity. Each shape runs at (N, 50N) with quantum 64 and, if it allocates, at (2N, 100N) with quantum 1000. Exploration only.",
           "Trusts ExecutionStats peaks (profile = true) and heap_stats().slots as the measures the property names. Only genuine tail positions are generated (a non-tail `^` is the recorded C07 finding).",
           "DESIGN.md §4 C16"),
+  "C09": ("proptest-generated closed, contractive type trees and mutation-related pairs/triples registered through Program::register_*; oracle: bounded exhaustive value enumeration + inhabitation model over the Program's own type representation",
+          "Each case builds three related types (a generated tree, 1-3 mutations of it, further mutations or an unrelated tree) and checks for every ordered pair: is_compatible => every enumerated value of the left type inhabits the right one; a first-order value in both => types_overlap; transitivity over all triples; intersect_types keeps every common value; compute_complement keeps every value outside the right operand. Exploration only (tuple depth <= 3, <= 28 values per node).",
+          "Trusts the reading of Type::Cycle(k) as the k-th enclosing union/function type (as typing.rs documents). Function values are the canonical function of a callable type and only 'not a member' verdicts about them are used. Six recorded findings, all rooted in context-dependent type ids of recursive types, are attributed by structural features of the operands (see known_findings.json) and re-witnessed each run; narrowing helpers are reached through hook H6.",
+          "DESIGN.md §4 C09"),
   # id: (technique, level text, level note, design_ref)
   "C18": ("proptest-generated inputs + corpus mutation (prefix/token delete/dup/subst/transpose/wide-char) + bracket nests to depth 100; oracle: no panic, located error, deterministic production budget",
           "Generated-input search over front-end inputs: every run parses ~10^5 generated/mutated texts and compiles the accepted ones, checking no panic, error position inside the input on a char boundary with consistent line/column, and a polynomial production budget via hook H5. Exploration only: absence is not established.",
